@@ -494,6 +494,9 @@ type cscenario struct {
 	K, N       int
 	Src        string
 	Try        bool
+	// Any: no fault is injected; the program uses an operation in an unusual way and may yield a value or
+	// an error, but must not kill the host, deadlock or leave the evaluation hanging
+	Any bool
 }
 
 func coopScenarios(quick bool, emit func(cscenario)) {
@@ -540,6 +543,26 @@ func coopScenarios(quick bool, emit func(cscenario)) {
 		{"multiUse-source", 3, []int{0, 2}, func(k int, f string) string {
 			return "numbers(n).map(x->" + F("x", k, f) + ").multiUse({a:l->l.sum(),b:l->l.size()}).a"
 		}},
+		// the fault sits in a lazy list INSIDE the result of a multiUse consumer: multiUse forces such
+		// results on the consumer's goroutine and has to report the first failure, wherever it sits
+		{"multiUse-result-lazy-list", 3, []int{0, 2}, func(k int, f string) string {
+			return "numbers(n).multiUse({a:l->l.map(x->" + F("x", k, f) + "),b:l->l.size()}).b"
+		}},
+		{"multiUse-result-map-first-entry", 3, []int{0, 2}, func(k int, f string) string {
+			return "numbers(n).multiUse({a:l->{x:l.map(x->" + F("x", k, f) + "),y:3},b:l->l.size()}).a.y"
+		}},
+		{"multiUse-result-map-last-entry", 3, []int{0, 2}, func(k int, f string) string {
+			return "numbers(n).multiUse({a:l->{y:3,x:l.map(x->" + F("x", k, f) + ")},b:l->l.size()}).a.y"
+		}},
+		{"multiUse-result-map-middle-entry", 3, []int{0, 2}, func(k int, f string) string {
+			return "numbers(n).multiUse({a:l->{w:[1],x:l.map(x->" + F("x", k, f) + "),y:3,z:[2].map(e->e)},b:l->l.size()}).a.y"
+		}},
+		{"multiUse-result-nested-list", 3, []int{0, 2}, func(k int, f string) string {
+			return "numbers(n).multiUse({a:l->[l.map(x->" + F("x", k, f) + "),[1],2],b:l->l.size()}).b"
+		}},
+		{"multiUse-result-map-in-list-in-map", 3, []int{0, 2}, func(k int, f string) string {
+			return "numbers(n).multiUse({a:l->l.size(),b:l->{p:[{q:l.map(x->" + F("x", k, f) + "),r:1}],s:2}}).a"
+		}},
 	}
 	// closure provenance: the callback reaches the goroutine-running operation as a let-bound closure, a
 	// func declaration, a RECURSIVE func that passes itself, a curried closure, a map field — with the
@@ -576,6 +599,20 @@ func coopScenarios(quick bool, emit func(cscenario)) {
 		both("parallel-mapper/recursive-func-passing-itself", "func cb(x) if x<100 then numbers(n).map(e->e+100).map(cb).sum() else slow("+F("x", 112, faults[fn])+"); cb(0)", 14)
 		both("merge-operand/recursive-func-passing-itself", "func cb(x) if x<100 then numbers(n).map(e->e+100).map(cb).merge(numbers(n),(a,b)->a<b).sum() else "+F("x", 101, faults[fn])+"; cb(0)", 3)
 		both("multiUse-consumer/recursive-func-passing-itself", "func cb(l) if l.size()>2 then numbers(2).multiUse({a:cb,b:q->q.size()}).a else "+strings.ReplaceAll(faults[fn], "x", "l.size()")+"; cb(numbers(n))", 3)
+	}
+	// multiUse functions that use their list in every way but the intended one (once, completely)
+	for _, body := range []string{
+		"[1,2].cross(l,(x,y)->x+y)", "l.cross(l,(x,y)->x+y)", "l.cross([1,2],(x,y)->x+y)", "l.sum()+l.sum()", "l.merge(l,(a,b)->a<b)", "l+l", "[l,l]", "{p:l,q:l}",
+		"l.map(x->l.size())", "l.top(2)+l.skip(2)", "l", "l.top(1)", "l.first()+l.first()", "[l.first(),l.size()]", "l.eval().size()+l.eval().size()",
+		"l.multiUse({p:q->q.sum(),r:q->q.size()})", "l.map(x->slow(x)).sum()", "l.accept(x->slow(x)>=0).top(1)", "l.combine((p,q)->[p,q])", "l.movingWindow(x->x)",
+		"l.iir(x->x,(x,y)->x+y)", "l.groupByInt(x->x%2)", "l.order(x->0-x)", "l.reverse()", "l.replaceList(q->q.map(x->x+1))", "l.size()+l[0]", "l[0]+l[1]",
+		"try l.sum()+l.sum() catch l.size()", "(l~l)", "(l=l)", "l.string()+l.string()", "x->l", "{f:x->l.size()}",
+	} {
+		for _, n := range []int{0, 1, 3} {
+			src := "numbers(n).multiUse({a:l->" + body + ",b:l->l.size()})"
+			emit(cscenario{Pos: "multiUse-function-misusing-its-list", Fault: "none", N: n, Src: src, Any: true})
+			emit(cscenario{Pos: "multiUse-function-misusing-its-list", Fault: "none", N: n, Src: "try " + src + " catch 42", Any: true})
+		}
 	}
 	for _, p := range positions {
 		for _, fn := range fnames {
@@ -616,11 +653,25 @@ func runCoop(ctx *bex.Ctx) {
 			return
 		}
 		vsched.Workers = 2
-		st := vsched.Explore(vsched.Config{PreemptBound: -1, MaxExecs: 40000, Stop: ctx.Expired}, func() string {
+		maxExecs := 40000
+		if ctx.Quick() {
+			maxExecs = 10000 // the 9-vthread scenarios (two parallel stages) hit any cap; counted in scenarios_capped
+		}
+		if sc.Any {
+			maxExecs = 4000
+		}
+		t0 := time.Now()
+		st := vsched.Explore(vsched.Config{PreemptBound: -1, MaxExecs: maxExecs, Stop: ctx.Expired}, func() string {
 			c, v := observe(f, []value.Value{value.Int(sc.N)})
 			return c + " " + v
 		})
 		ctx.Eval()
+		if tf := os.Getenv("C05_TRACE"); tf != "" {
+			if fh, err := os.OpenFile(fmt.Sprintf("%s.%d", tf, ctx.Shard), os.O_APPEND|os.O_CREATE|os.O_WRONLY, 0644); err == nil {
+				fmt.Fprintf(fh, "%8.0fms execs=%-6d states=%-6d threads=%d capped=%v n=%d %s\n", float64(time.Since(t0).Microseconds())/1000, st.Execs, st.States, st.MaxThreads, st.Capped, sc.N, sc.Src)
+				fh.Close()
+			}
+		}
 		ctx.Add("states", int64(st.States))
 		ctx.Add("transitions", int64(st.Transitions))
 		ctx.Add("executions", int64(st.Execs))
@@ -644,7 +695,7 @@ func runCoop(ctx *bex.Ctx) {
 			want = "value 42"
 		}
 		for o := range st.Outcomes {
-			if o != want && st.Crashes == 0 {
+			if o != want && st.Crashes == 0 && !sc.Any {
 				ctx.Violate("fault on a library goroutine is not an ordinary (catchable) error", repro, want, o, classifyCoop(sc, ""))
 			}
 		}
@@ -654,7 +705,233 @@ func runCoop(ctx *bex.Ctx) {
 			ctx.Violate("deadlock after a fault", rp, "the evaluation returns", t.Leaks, "")
 		}
 	})
-	ctx.SpaceDone("3 fault kinds x 11 positions x fault at {sequential phase, first parallel item, last item} x {bare, inside try/catch}; all schedules; W=2")
+	ctx.SpaceDone("33 multiUse functions misusing their list (twice, through cross/merge/+, kept in the result, nested multiUse, never) x 3 sizes, bare and inside try/catch; 3 fault kinds x 17 positions (incl. lazy lists inside the result of a multiUse function: map first/middle/last entry, nested lists and maps) x fault at {sequential phase, first parallel item, last item} x {bare, inside try/catch}; all schedules; W=2")
+	runCoopMethods(ctx)
+}
+
+// runCoopMethods: every list method behind a map stage that really runs parallel. The Go code of a
+// method that consumes such a list runs, element by element, on a goroutine of the iterator library
+// (the loop body of a range-over-func is called by whoever yields), where no closure guard protects it:
+// a Go panic in the METHOD's own code (a type assertion on a failed comparison, an index computed from
+// NaN) kills the host there although the same method behind a sequential list only returns an error.
+func runCoopMethods(ctx *bex.Ctx) {
+	ctx.Space("list-methods-behind-a-parallel-stage")
+	g := coopGen()
+	p := pool(g)
+	pick := func(names ...string) []pv {
+		var out []pv
+		for _, n := range names {
+			for _, v := range p {
+				if v.name == n {
+					out = append(out, v)
+				}
+			}
+		}
+		return out
+	}
+	small := pick("1", "0.0", `"a"`, "[1,2]", "x->x", "(x,y)->x", "x->x%0", "NaN", "{k:1}")
+	tiny := pick("1", "x->x", "(x,y)->x")
+	recvs := []struct{ name, src string }{
+		{"ints", "numbers(16)"},
+		// the poison sits behind item 12: the first 12 items are always processed sequentially
+		{"incomparable", `numbers(16).map(x->if x<13 then x else if x=13 then "s" else {k:x})`},
+		{"incomparable-mixed", `numbers(16).map(x->if x<12 then x%3 else if x%2=0 then [x] else x->x)`},
+		{"floats-NaN-Inf", "numbers(16).map(x->if x=13 then 0.0/0.0 else if x=14 then 1.0/0.0 else x*0.5)"},
+		{"lists", "numbers(16).map(x->[x,x+1])"},
+		{"records", "numbers(16).map(x->{x:x*1.0,y:x,w:1})"},
+	}
+	var idx int64
+	nMethods := 0
+	for _, td := range g.GetDocumentation() {
+		if td.Type != "Methods" || td.Name != "list" {
+			continue
+		}
+		for _, fd := range td.Functions {
+			nMethods++
+			arity := 0
+			if fd.Description != nil {
+				arity = len(fd.Description.Args)
+			}
+			argPool := small
+			if arity >= 3 {
+				argPool = tiny
+			}
+			if arity > 6 {
+				continue
+			}
+			names := []string{"b", "c", "d", "e", "f", "g"}[:arity]
+			for _, rc := range recvs {
+				expr := rc.src + ".map(x->slow(x))." + fd.Name + "(" + strings.Join(names, ",") + ")"
+				var f, ft funcGen.Func[value.Value]
+				var err error
+				vsched.RunDefault(func() string {
+					f, _, err = g.Generate(expr, names...)
+					if err == nil {
+						ft, _, err = g.Generate("try "+expr+" catch 42", names...)
+					}
+					return ""
+				})
+				if err != nil {
+					continue
+				}
+				tuple := make([]pv, arity)
+				var rec func(i int)
+				rec = func(i int) {
+					if i < arity {
+						for _, v := range argPool {
+							tuple[i] = v
+							rec(i + 1)
+						}
+						return
+					}
+					idx++
+					if !ctx.Mine(idx) || ctx.Expired() {
+						return
+					}
+					argNames := make([]string, arity)
+					for k, v := range tuple {
+						argNames[k] = v.name
+					}
+					repro := map[string]any{"coop": true, "methods": true, "src": expr, "arg_values": argNames, "receiver": rc.name}
+					if !ctx.Begin(func() map[string]any { return repro }) {
+						return
+					}
+					mkArgs := func() []value.Value {
+						out := make([]value.Value, arity)
+						for k, v := range tuple {
+							out[k] = v.mk()
+						}
+						return out
+					}
+					vsched.Workers = 2
+					run := func(fn funcGen.Func[value.Value]) vsched.Stats {
+						return vsched.Explore(vsched.Config{PreemptBound: 0, MaxExecs: 8, Stop: ctx.Expired}, func() string {
+							c, v := observe(fn, mkArgs())
+							if c == "error" {
+								v = ""
+							}
+							return c + " " + v
+						})
+					}
+					st := run(f)
+					ctx.Eval()
+					ctx.Add("executions", int64(st.Execs))
+					ctx.Add("states", int64(st.States))
+					ctx.Add("transitions", int64(st.Transitions))
+					ctx.Add("traces_validated_against_impl", int64(st.Execs))
+					isErr := false
+					for o := range st.Outcomes {
+						if strings.HasPrefix(o, "error ") { // not "error-when-forced": raised when the host iterates the lazily returned list
+							isErr = true
+						}
+					}
+					ctx.Outcome(fmt.Sprintf("method-behind-parallel:%s:error=%v", rc.name, isErr))
+					if st.MaxThreads > 2 {
+						ctx.Nontrivial(expr + strings.Join(argNames, ","))
+					}
+					if t := st.FirstCrash(); t != nil {
+						ctx.Violate("a Go panic in the code of a list method reaches the top of a library goroutine (the method runs behind a parallel stage): the host process dies", repro, "the evaluation returns a value or an error", t.Crash, classifyMethodCrash(fd.Name, t.Crash))
+						return
+					}
+					if t := st.FirstDeadlock(); t != nil {
+						ctx.Violate("deadlock in a list method behind a parallel stage", repro, "the evaluation returns", t.Leaks, "")
+						return
+					}
+					if isErr {
+						st2 := run(ft)
+						ctx.Add("executions", int64(st2.Execs))
+						for o := range st2.Outcomes {
+							if o != "value 42" && st2.Crashes == 0 {
+								ctx.Violate("a fault in a list method behind a parallel stage is not an ordinary (catchable) error", repro, "value 42 inside try/catch", o, "")
+							}
+						}
+						if t := st2.FirstCrash(); t != nil {
+							ctx.Violate("a Go panic in the code of a list method reaches the top of a library goroutine (inside try/catch)", repro, "value 42", t.Crash, classifyMethodCrash(fd.Name, t.Crash))
+						}
+					}
+				}
+				rec(0)
+			}
+		}
+	}
+	ctx.Add("list_methods_enumerated_from_documentation", int64(nMethods))
+	ctx.SpaceDone(fmt.Sprintf("every method of the list type listed by GetDocumentation() x every argument tuple from a pool of %d values (%d for arity >= 3) x 6 receivers of 16 items (ints; ints followed by a string and a map resp. lists and closures from item 13; floats with NaN and Inf at items 13/14; lists; records) produced by a map stage that runs parallel from item 13; non-preemptive schedules (<= 8); no panic on a library goroutine, no deadlock, a fault is catchable", len(small), len(tiny)))
+}
+
+// replayCoopMethod re-runs a case of space list-methods-behind-a-parallel-stage.
+func replayCoopMethod(repro map[string]any) (string, bool) {
+	g := coopGen()
+	p := pool(g)
+	expr, _ := repro["src"].(string)
+	var tuple []pv
+	if l, ok := repro["arg_values"].([]any); ok {
+		for _, a := range l {
+			for _, v := range p {
+				if v.name == a.(string) {
+					tuple = append(tuple, v)
+				}
+			}
+		}
+	}
+	names := []string{"b", "c", "d", "e", "f", "g"}[:len(tuple)]
+	var f, ft funcGen.Func[value.Value]
+	var err error
+	vsched.RunDefault(func() string {
+		f, _, err = g.Generate(expr, names...)
+		if err == nil {
+			ft, _, err = g.Generate("try "+expr+" catch 42", names...)
+		}
+		return ""
+	})
+	if err != nil {
+		return "does not generate: " + err.Error(), true
+	}
+	vsched.Workers = 2
+	run := func(fn funcGen.Func[value.Value]) vsched.Stats {
+		return vsched.Explore(vsched.Config{PreemptBound: 0, MaxExecs: 8}, func() string {
+			args := make([]value.Value, len(tuple))
+			for k, v := range tuple {
+				args[k] = v.mk()
+			}
+			c, v := observe(fn, args)
+			if c == "error" {
+				v = ""
+			}
+			return c + " " + v
+		})
+	}
+	st, st2 := run(f), run(ft)
+	var bad []string
+	for _, x := range []*vsched.Stats{&st, &st2} {
+		if t := x.FirstCrash(); t != nil {
+			bad = append(bad, "panic on a library goroutine: "+t.Crash)
+		}
+		if t := x.FirstDeadlock(); t != nil {
+			bad = append(bad, "deadlock: "+t.Leaks)
+		}
+	}
+	isErr := false
+	for o := range st.Outcomes {
+		if strings.HasPrefix(o, "error ") {
+			isErr = true
+		}
+	}
+	if isErr {
+		for o := range st2.Outcomes {
+			if o != "value 42" {
+				bad = append(bad, "inside try/catch: "+o)
+			}
+		}
+	}
+	return fmt.Sprintf("bare: %v (vthreads %d); inside try/catch: %v; violated: %v", st.Outcomes, st.MaxThreads, st2.Outcomes, bad), len(bad) > 0
+}
+
+// classifyMethodCrash names the known finding a crash belongs to ("" = not listed).
+func classifyMethodCrash(method, crash string) string {
+	if strings.Contains(crash, "value.Value is nil, not value.Bool") && strings.Contains(crash, "value.Equal.func") {
+		return "F05e-equal-wrapper-panics-on-incomparable"
+	}
+	return ""
 }
 
 func contains(l []string, s string) bool {
@@ -721,6 +998,12 @@ func runRace(ctx *bex.Ctx) {
 		reps := 3
 		if !ctx.Quick() {
 			reps = 10
+		}
+		if sc.Any {
+			if strings.Contains(sc.Src, "x->l") {
+				continue // never iterates its list: the pinned 5 s time-out, in real time here
+			}
+			reps = 1
 		}
 		n := sc.N
 		if strings.HasPrefix(sc.Pos, "parallel") || strings.HasPrefix(sc.Pos, "upstream") || strings.HasPrefix(sc.Pos, "downstream") || strings.HasPrefix(sc.Pos, "terminal") {
@@ -801,6 +1084,9 @@ func replay(repro map[string]any) (string, bool) {
 	if c, _ := repro["coop"].(bool); c {
 		if !bex.ReplayCoop {
 			return "coop scenarios are replayed with build/bin/c05-coop --replay", false
+		}
+		if m, _ := repro["methods"].(bool); m {
+			return replayCoopMethod(repro)
 		}
 		// all schedules of the scenario again, same oracles as the check
 		src, _ := repro["src"].(string)
@@ -903,9 +1189,9 @@ func main() {
 		CrashIsViolation: true,
 		ClassifyCrash:    classifyCrash,
 		HangSeconds:      60,
-		CoopWorkers:      4,
+		CoopWorkers:      5,
 		RaceWorkers:      2,
-		Workers:          10,
+		Workers:          9,
 		Run: func(ctx *bex.Ctx) {
 			log.SetOutput(io.Discard)
 			// a host with a 64 MB goroutine stack limit: runaway recursion that is not stopped by the
